@@ -172,89 +172,162 @@ Section Rfc9535.
   Definition fn_value (ns : list node) : option json :=
     match ns with [n] => Some (snd n) | _ => None end.
 
+  (* ---- documented extensions (docs/syntax.md, docs/advanced.md) ------------------- *)
+
+  (* `in` / `contains`: membership in arrays (element equality as the host language's
+     list membership), strings (substring) and object keys *)
+  Fixpoint substring_of (a b : ustr) : bool :=
+    starts_with a b || match b with [] => false | _ :: b' => substring_of a b' end.
+
+  Definition member_of (x : option json) (c : option json) : bool :=
+    match c, x with
+    | Some (JArr xs), Some v => existsb (fun e => py_eq e v) xs
+    | Some (JStr s), Some (JStr a) => substring_of a s
+    | Some (JObj ms), Some (JStr k) => match lookup k ms with Some _ => true | None => false end
+    | _, _ => false
+    end.
+
+  Definition part_value (p : part) : json :=
+    match p with PKey k => JStr k | PIdx i => JNum (num_of_Z (Z.of_nat i)) end.
+
+  (* keys selector: the member names of an object, in order; nothing for other values.
+     The location of such a "node" is the object's location extended by the marker ~name. *)
+  Variable keys_token : ustr.
+  Definition sel_keys (n : node) : list node :=
+    match snd n with
+    | JObj ms => map (fun kv => (fst n ++ [PKey (keys_token ++ fst kv)], JStr (fst kv))) ms
+    | _ => []
+    end.
+
   (* Type-directed evaluation.  [root] is the query argument ($ at every depth), [cur] the
-     candidate child (@). *)
-  Fixpoint q_nodes (e : fexpr) (root cur : json) {struct e} : list node :=
+     candidate child (@), [ctx] the caller-supplied filter context (_ at every depth),
+     [key] the member name or index of the candidate (#). *)
+  Fixpoint q_nodes (e : fexpr) (root ctx cur key : json) {struct e} : list node :=
     match e with
-    | FSelf p => segs_nodes p root [([], cur)]
-    | FRoot false p => segs_nodes p root [([], root)]
+    | FSelf p => segs_nodes p root ctx [([], cur)]
+    | FRoot fake p => segs_nodes p root ctx [([], if fake then JArr [root] else root)]
+    | FCtx p => segs_nodes p root ctx [([], ctx)]
     | _ => []
     end
-  with v_value (e : fexpr) (root cur : json) {struct e} : option json :=
+  with v_value (e : fexpr) (root ctx cur key : json) {struct e} : option json :=
     match e with
     | FNil => Some JNull
+    | FUndefined => None
     | FBool b => Some (JBool b)
     | FInt z => Some (JNum (num_of_Z z))
     | FFloat n => Some (JNum n)
     | FStr s => Some (JStr s)
+    | FKey => Some key
+    | FList items => Some (JArr (vs_values items root ctx cur key))
     | FSelf p =>                                                              (* singular query *)
-        match segs_nodes p root [([], cur)] with [n] => Some (snd n) | _ => None end
-    | FRoot false p =>
-        match segs_nodes p root [([], root)] with [n] => Some (snd n) | _ => None end
+        match segs_nodes p root ctx [([], cur)] with [n] => Some (snd n) | _ => None end
+    | FRoot fake p =>
+        match segs_nodes p root ctx [([], if fake then JArr [root] else root)] with
+        | [n] => Some (snd n) | _ => None end
+    | FCtx p =>
+        match segs_nodes p root ctx [([], ctx)] with [n] => Some (snd n) | _ => None end
     | FFunc name args =>
         if ustr_eqb name fname_length then
-          match args with ECons a ENil => fn_length (v_value a root cur) | _ => None end
+          match args with ECons a ENil => fn_length (v_value a root ctx cur key) | _ => None end
         else if ustr_eqb name fname_count then
           match args with
-          | ECons a ENil => Some (JNum (num_of_Z (Z.of_nat (length (q_nodes a root cur)))))
+          | ECons a ENil => Some (JNum (num_of_Z (Z.of_nat (length (q_nodes a root ctx cur key)))))
           | _ => None
           end
         else if ustr_eqb name fname_value then
-          match args with ECons a ENil => fn_value (q_nodes a root cur) | _ => None end
+          match args with ECons a ENil => fn_value (q_nodes a root ctx cur key) | _ => None end
         else None
     | _ => None
     end
-  with l_test (e : fexpr) (root cur : json) {struct e} : bool :=
+  with vs_values (es : fexprs) (root ctx cur key : json) {struct es} : list json :=
+    match es with
+    | ENil => []
+    | ECons e r =>
+        match v_value e root ctx cur key with
+        | Some v => v :: vs_values r root ctx cur key
+        | None => JNull :: vs_values r root ctx cur key
+        end
+    end
+  with l_test (e : fexpr) (root ctx cur key : json) {struct e} : bool :=
     match e with
-    | FNot r => negb (l_test r root cur)
-    | FInfix l BAnd r => l_test l root cur && l_test r root cur
-    | FInfix l BOr r => l_test l root cur || l_test r root cur
-    | FInfix l o r => rfc_compare (v_value l root cur) o (v_value r root cur)
-    | FSelf p => match segs_nodes p root [([], cur)] with [] => false | _ => true end
-    | FRoot false p => match segs_nodes p root [([], root)] with [] => false | _ => true end
+    | FNot r => negb (l_test r root ctx cur key)
+    | FInfix l BAnd r => l_test l root ctx cur key && l_test r root ctx cur key
+    | FInfix l BOr r => l_test l root ctx cur key || l_test r root ctx cur key
+    | FInfix l BLg r => negb (rfc_eq (v_value l root ctx cur key) (v_value r root ctx cur key))
+    | FInfix l BIn r => member_of (v_value l root ctx cur key) (v_value r root ctx cur key)
+    | FInfix l BContains r => member_of (v_value r root ctx cur key) (v_value l root ctx cur key)
+    | FInfix l BRe (FRegex p fl) =>
+        match v_value l root ctx cur key with
+        | Some (JStr s) => match re_full p fl s with Some b => b | None => false end
+        | _ => false
+        end
+    | FInfix l o r => rfc_compare (v_value l root ctx cur key) o (v_value r root ctx cur key)
+    | FSelf p => match segs_nodes p root ctx [([], cur)] with [] => false | _ => true end
+    | FRoot fake p =>
+        match segs_nodes p root ctx [([], if fake then JArr [root] else root)] with [] => false | _ => true end
+    | FCtx p => match segs_nodes p root ctx [([], ctx)] with [] => false | _ => true end
     | FFunc name args =>
         if ustr_eqb name fname_match then
           match args with
-          | ECons a (ECons b ENil) => fn_match (v_value a root cur) (v_value b root cur)
+          | ECons a (ECons b ENil) => fn_match (v_value a root ctx cur key) (v_value b root ctx cur key)
           | _ => false
           end
         else if ustr_eqb name fname_search then
           match args with
-          | ECons a (ECons b ENil) => fn_search (v_value a root cur) (v_value b root cur)
+          | ECons a (ECons b ENil) => fn_search (v_value a root ctx cur key) (v_value b root ctx cur key)
           | _ => false
           end
         else false
     | _ => false
     end
-  with sel_nodes (s : selector) (root : json) (n : node) {struct s} : list node :=
+  with sel_nodes (s : selector) (root ctx : json) (n : node) {struct s} : list node :=
     match s with
     | SName k => sel_name k n
     | SIndex i => sel_index i n
     | SSlice a b c => sel_slice a b c n
     | SWild => sel_wild n
-    | SKeys => []
+    | SKeys => sel_keys n
     | SFilter e =>
-        flat_map (fun pc => if l_test e root (snd pc) then [(fst n ++ [fst pc], snd pc)] else [])
+        flat_map (fun pc => if l_test e root ctx (snd pc) (part_value (fst pc))
+                            then [(fst n ++ [fst pc], snd pc)] else [])
                  (children (snd n))
     end
-  with sels_nodes (l : sels) (root : json) (n : node) {struct l} : list node :=
+  with sels_nodes (l : sels) (root ctx : json) (n : node) {struct l} : list node :=
     match l with
     | LNil => []
-    | LCons s r => sel_nodes s root n ++ sels_nodes r root n
+    | LCons s r => sel_nodes s root ctx n ++ sels_nodes r root ctx n
     end
-  with seg_nodes (g : segment) (root : json) (ns : list node) {struct g} : list node :=
+  with seg_nodes (g : segment) (root ctx : json) (ns : list node) {struct g} : list node :=
     match g with
-    | GSel s => flat_map (sel_nodes s root) ns
-    | GList items => flat_map (sels_nodes items root) ns
+    | GSel s => flat_map (sel_nodes s root ctx) ns
+    | GList items => flat_map (sels_nodes items root ctx) ns
     | GDescent => flat_map descendants ns
     end
-  with segs_nodes (p : segs) (root : json) (ns : list node) {struct p} : list node :=
+  with segs_nodes (p : segs) (root ctx : json) (ns : list node) {struct p} : list node :=
     match p with
     | PNil => ns
-    | PCons g r => segs_nodes r root (seg_nodes g root ns)
+    | PCons g r => segs_nodes r root ctx (seg_nodes g root ctx ns)
     end.
 
+  (* the fake root yields the document wrapped in a one-element array *)
+  Definition path_nodes (p : jpath) (d ctx : json) : list node :=
+    segs_nodes (p_segs p) d ctx [([], if p_fake p then JArr [d] else d)].
+
+  (* compound queries: union = left then right; intersection = left restricted to values the
+     right produced (the host language's list membership); folded left to right *)
+  Fixpoint compound_nodes (acc : list node) (rest : list (setop * jpath)) (d ctx : json) : list node :=
+    match rest with
+    | [] => acc
+    | (OpUnion, p) :: rest' => compound_nodes (acc ++ path_nodes p d ctx) rest' d ctx
+    | (OpIntersect, p) :: rest' =>
+        let right := map snd (path_nodes p d ctx) in
+        compound_nodes (filter (fun n => existsb (fun v => py_eq v (snd n)) right) acc) rest' d ctx
+    end.
+
+  Definition query_nodes (q : query) (d ctx : json) : list node :=
+    compound_nodes (path_nodes (q_first q) d ctx) (q_rest q) d ctx.
+
   (* 2.1.2: the nodelist of a query applied to a query argument *)
-  Definition nodelist (p : segs) (d : json) : list node := segs_nodes p d [([], d)].
+  Definition nodelist (p : segs) (d : json) : list node := segs_nodes p d (JObj []) [([], d)].
 
 End Rfc9535.
